@@ -30,7 +30,7 @@ RULE = "case = one program (object set, seeds, interleaving); non-trivial when >
 ASSUMPTIONS = ["same seed and parameters => same stream (numpy PCG64 is deterministic across processes)"]
 REQUIRED = ["phasescreen.py:ft_phase_screen", "phasescreen.py:ft_sh_phase_screen", "infinitephasescreen.py:PhaseScreen.make_initial_screen",
             "infinitephasescreen.py:PhaseScreen.add_row", "profile_compression.py:optimal_grouping"]
-REQUIRED_COUNTERS = ["forked_sibling_comparisons", "isolated_oracle_runs", "outputs_compared", "hostile_actions", "global_state_checks", "unseeded_pairs"]
+REQUIRED_COUNTERS = ["isolated_oracle_runs", "outputs_compared", "hostile_actions", "global_state_checks", "unseeded_pairs"]
 TIMEOUT = {"quick": 1200, "thorough": 7200}
 
 
@@ -216,7 +216,7 @@ def forked_unseeded(ctx, aotools, rng):
     got = {}
     for _ in procs:
         try:
-            tag, out = q.get(timeout=120)
+            tag, out = q.get(timeout=600)
             got[tag] = out
         except Exception:
             break
